@@ -398,3 +398,9 @@ R("C02", "precession-temporaries", I80, "    theta = (2004.3109 * t - 0.42665 * 
 R("C03", "contains-early-return", DATE, "            if self.inclusive:\n                return self.stop <= date <= self.start\n            else:\n                return self.stop < date <= self.start", "            if self.inclusive:\n                return self.stop <= date <= self.start\n            return self.stop < date <= self.start")
 R("C05", "rate-temporary", J2, "        dΩ = -3 / 2 * com * np.cos(i)", "        cos_i = np.cos(i)\n        dΩ = -3 / 2 * com * cos_i")
 R("C16", "entry-renamed-locals", CW, "        nt = n * t\n        cs = np.cos(nt)\n        sn = np.sin(nt)", "        nt = n * t\n        cs, sn = np.cos(nt), np.sin(nt)")
+
+# ---- DEFS (a definition removed, or added under a name already in use: wave g)
+M("C08", "base-default-copy-removed", BASE, "    def copy(self):\n        return self.__class__()\n\n", "", "DEFS")
+M("C10", "mask-listener-inherits-label", LIS, '    def info(self, orb):\n        return self.event(self, "AOS" if self(orb) > self(self.prev) else "LOS")\n\n    def check(self, orb):\n        # Override to disable', '    def check(self, orb):\n        # Override to disable', "DEFS")
+M("C03", "date-eq-hook-added-in-subclass-position", DATE, "    def __eq__(self, other):\n        return self._mjd == other._mjd\n", "    def __eq__(self, other):\n        return self._mjd == other._mjd\n\n    def __ne__(self, other):\n        return abs(self._mjd - other._mjd) > 1e-9\n", "DEFS")
+R("C08", "new-private-helper-new-name", BASE, "    def copy(self):\n        return self.__class__()\n", "    def copy(self):\n        return self._blank()\n\n    def _blank(self):\n        return self.__class__()\n")
